@@ -201,12 +201,16 @@ func (g *GSchema) coqCore() string {
 	for i, e := range g.Enum {
 		enum[i] = coqJSON(normJSON(e))
 	}
-	return fmt.Sprintf("(mkCore %s %s %s %s %s %s %s %s %s %s %s %s %s %s %s %s %s %s %s %s %s %s)",
-		types, coqList(enum), coqBool(g.Nullable), coqBool(g.ReadOnly), coqBool(g.WriteOnly), coqBool(g.AllowEmpty),
+	ctor, dflt := "mkCore", ""
+	if g.Default != nil {
+		ctor, dflt = "mkCoreD", " (Some "+coqJSON(normJSON(g.Default))+")"
+	}
+	return fmt.Sprintf("(%s %s %s %s %s %s %s %s %s %s %s %s %s %s %s %s %s %s %s %s %s %s %s%s)",
+		ctor, types, coqList(enum), coqBool(g.Nullable), coqBool(g.ReadOnly), coqBool(g.WriteOnly), coqBool(g.AllowEmpty),
 		coqStr(g.Format), coqBool(g.Unique), coqBool(g.ExMin), coqBool(g.ExMax),
 		coqOptFloat(g.Min), coqOptFloat(g.Max), coqOptFloat(g.Mult),
 		coqN(g.MinLen), coqOptN(g.MaxLen), coqStr(g.Pattern), coqN(g.MinItems), coqOptN(g.MaxItems),
-		coqStrList(g.Required), coqN(g.MinProps), coqOptN(g.MaxProps), coqOptBool(g.ApHas))
+		coqStrList(g.Required), coqN(g.MinProps), coqOptN(g.MaxProps), coqOptBool(g.ApHas), dflt)
 }
 
 func coqOptSchema(g *GSchema) string {
